@@ -228,6 +228,13 @@ theorem C41_wiring : wiring = [
     ("NewConn.writer", "newFeeder(out.Write)"),
     ("NewConn.go", "c.reader.run(); c.writer.run()")] := by decide
 
+/-- Frame condition: in all of conn.go the feeder channels and the `closed` flag are touched only by
+newFeeder (creation) and by the three translated programs, in exactly these ways. -/
+theorem C41_frame : chanAccess = [("newFeeder", "init:input"), ("newFeeder", "init:result"),
+    ("newFeeder", "init:done"), ("close", "read:closed"), ("close", "set:closed"), ("close", "close:done"),
+    ("do", "send:input"), ("do", "recv:done"), ("do", "recv:result"), ("run", "recv:input"),
+    ("run", "recv:done"), ("run", "send:result")] := by decide
+
 /-! ### non-vacuity: concrete reachable states meeting the hypotheses -/
 
 def runLabels (root : List UInt8) : List Label → Option State
